@@ -184,6 +184,17 @@ class Run:
         if len([x for x in self.samples if x["kind"] == kind]) < 2:
             self.samples.append({"kind": kind, "history": h})
 
+    def add_vector_seq(self, job, vec, idx, ports):
+        """a multi-step sequence (MCSeq): setup, then every event logged and judged"""
+        for port, every in ports.items():
+            if idx % every != 0:
+                continue
+            evs = [dict(e, port=("api" if e["op"] in ("resize", "display", "cleardirty") else port)) for e in vec["evs"]]
+            for disp in ([False, True] if job.get("disp") and port == "api" else [False]):
+                h = {"id": "%s-v%d-%s%s" % (job["model"], idx, port, "-d" if disp else ""), "sid": "", "cmp": "", "C": vec["C"], "L": vec["L"],
+                     "scr": True, "utf8": True, "dispsetup": disp, "setup": vec["setup"], "evs": evs}
+                self.put(h, "vector-" + job["model"])
+
     def add_vector_rec(self, job, vec, idx, ports):
         """a recogniser string: fed whole / one character at a time (chars), and as bytes"""
         s, utf8 = vec["s"], vec["utf8"]
